@@ -140,7 +140,8 @@ func genCliAlign(r *gen.Rand) *tal {
 		pow *= 4
 	}
 	t.NIdx = nd
-	pool := []string{"s0", "s1", "s2", "Seq0000", "Seq0001", "x_0001", "tenchars10", "elevenchars", "A|B", "a.b", "42", "ref", "S01", "prefix", "prefix2"}
+	pool := []string{"s0", "s1", "s2", "Seq0000", "Seq0001", "x_0001", "tenchars10", "elevenchars", "A|B", "a.b", "42", "ref", "S01", "prefix", "prefix2",
+		"none", "stdout", "auto"} // the last three: names that spell the default value of a string option
 	perm := r.Perm(len(pool))
 	for i, s := range seqs {
 		t.Rows = append(t.Rows, gen.Seq{Name: pool[perm[i]], Seq: s})
@@ -234,6 +235,11 @@ func (k *cliCase) subseq() {
 	useRef := r.Chance(0.5)
 	reverse := r.Chance(0.35)
 	ri := r.Intn(len(t.Rows))
+	for i, row := range t.Rows {
+		if (row.Name == "none" || row.Name == "auto") && r.Chance(0.6) {
+			ri = i // a reference whose name spells an option default
+		}
+	}
 	refName := t.Rows[ri].Name
 	unknown := false
 	if useRef && r.Chance(0.06) {
@@ -360,6 +366,11 @@ func (k *cliCase) subsites() {
 	useRef := r.Chance(0.5)
 	reverse := r.Chance(0.35)
 	ri := r.Intn(len(t.Rows))
+	for i, row := range t.Rows {
+		if (row.Name == "none" || row.Name == "auto") && r.Chance(0.6) {
+			ri = i // a reference whose name spells an option default
+		}
+	}
 	refName := t.Rows[ri].Name
 	unknown := false
 	if useRef && r.Chance(0.06) {
@@ -508,6 +519,11 @@ func (k *cliCase) extract() {
 	L := t.L
 	useRef := r.Chance(0.5)
 	ri := r.Intn(len(t.Rows))
+	for i, row := range t.Rows {
+		if (row.Name == "none" || row.Name == "auto") && r.Chance(0.6) {
+			ri = i // a reference whose name spells an option default
+		}
+	}
 	size := L
 	if useRef {
 		size = len(residuePositions(t.Rows[ri].Seq))
